@@ -109,7 +109,7 @@ func newHistGen(t *rapid.T, w *sim.World) *histGen {
 		"ibtp-req", "ibtp-req", "ibtp-req", "ibtp-rcpt", "ibtp-rcpt", "ibtp-badidx", "ibtp-badproof",
 		"group", "gov-register-chain", "gov-register-service", "gov-vote", "gov-vote", "gov-vote", "gov-lifecycle",
 		"malformed", "malformed", "xvm", "badsig", "poor", "query",
-		"script", "script", "script",
+		"script", "script", "script", "mutated",
 	}
 	return g
 }
@@ -161,7 +161,7 @@ func (g *histGen) genTx() *txSpec {
 	case "transfer":
 		from := g.actor("from")
 		to := g.actor("to")
-		if to == from {
+		if to == from && rapid.Bool().Draw(t, "notSelf") {
 			to = sim.KeyFor("sink")
 		}
 		amt := g.amount(from)
@@ -368,6 +368,9 @@ func (g *histGen) genTx() *txSpec {
 		s.tx = w.BVM(poor, constant.StoreContractAddr, "Set", pb.String("p"), pb.String("q"))
 		s.victim = true
 		s.desc = "BVM call by an account that cannot pay the fee"
+	case "mutated":
+		tx, desc := g.genMutated()
+		s.tx, s.desc = tx, desc
 	case "script":
 		from := g.actor("from")
 		script, fails := genScript(t)
@@ -537,4 +540,85 @@ func genScript(t *rapid.T) (string, bool) {
 	e := end()
 	ops = append(ops, e)
 	return strings.Join(ops, ";"), e != "ok"
+}
+
+// hostile replacement values per argument type (structure-level mutation of one argument of a well-formed call)
+var hostileStrings = []string{
+	"", " ", "0x", "0x1234", "0xZZ", "1234", "0x00000000000000000000000000000000000000a2", "0x00000000000000000000000000000000000000A2",
+	"00000000000000000000000000000000000000a2", "0x00000000000000000000000000000000000000a2ff", "0x000000000000000000000000000000000000000",
+	":", "::", "a:b", "a:b:c:d", ":chainA:s1", "1356:chainA:", "1356::s1", "chainA", "chainA:s1", "-1", "18446744073709551616", "1e3",
+	"approve", "reject", "a > 0.5 * t", "a >", "t / 0 > a", "\x00", "\u202e", "{\"a\":1}", "[", "null", "%s%s%n", "../../etc", ",", ",,", "a,b,,c",
+}
+
+func hostileArg(t *rapid.T, old *pb.Arg) *pb.Arg {
+	switch old.Type {
+	case pb.Arg_String:
+		if rapid.IntRange(0, 12).Draw(t, "hugeStr") == 0 {
+			return pb.String(strings.Repeat("A", rapid.SampledFrom([]int{255, 256, 4096, 70000}).Draw(t, "len")))
+		}
+		return pb.String(rapid.SampledFrom(hostileStrings).Draw(t, "hostile"))
+	case pb.Arg_Bytes:
+		return pb.Bytes(rapid.SampledFrom([][]byte{nil, {}, {0}, []byte("{"), make([]byte, 70000)}).Draw(t, "hostileBytes"))
+	case pb.Arg_U64:
+		return pb.Uint64(rapid.SampledFrom([]uint64{0, 1, 2, 1<<63 - 1, 1 << 63, 1<<64 - 1}).Draw(t, "hostileU64"))
+	default:
+		return pb.String(rapid.SampledFrom(hostileStrings).Draw(t, "hostile"))
+	}
+}
+
+// genMutated builds a well-formed call of a built-in contract by the caller entitled to it and replaces one
+// (sometimes two) of its arguments by a hostile value of the same type, or changes the argument's declared type.
+func (g *histGen) genMutated() (pb.Transaction, string) {
+	t, w := g.t, g.w
+	g.newChains++
+	fresh := fmt.Sprintf("m%d", g.newChains)
+	out := sim.Outsiders[rapid.IntRange(0, 1).Draw(t, "mo")]
+	ca := sim.ChainAdmins["chainA"]
+	ad := w.N.Admins[rapid.IntRange(0, len(w.N.Admins)-1).Draw(t, "ma")]
+	freshKey := sim.KeyFor("mut-" + fresh)
+	happy := "0x00000000000000000000000000000000000000a2"
+	type call struct {
+		from   *sim.Key
+		to     constant.BoltContractAddress
+		method string
+		args   []*pb.Arg
+	}
+	calls := []call{
+		{out, constant.AppchainMgrContractAddr, "RegisterAppchain", []*pb.Arg{pb.String("chain-" + fresh), pb.String("name-" + fresh), pb.Bytes(nil), pb.String("ETH"), pb.Bytes(nil), pb.String("broker"), pb.String("desc"), pb.String(happy), pb.String(""), pb.String(out.Addr.String()), pb.String("reason")}},
+		{ca, constant.AppchainMgrContractAddr, "UpdateAppchain", []*pb.Arg{pb.String("chainA"), pb.String("name-" + fresh), pb.String("d"), pb.Bytes(nil), pb.String(ca.Addr.String()), pb.String("r")}},
+		{ca, constant.ServiceMgrContractAddr, "RegisterService", []*pb.Arg{pb.String("chainA"), pb.String("svc" + fresh), pb.String("svc-name-" + fresh), pb.String("CallContract"), pb.String("intro"), pb.Uint64(1), pb.String(""), pb.String("details"), pb.String("reason")}},
+		{ca, constant.ServiceMgrContractAddr, "UpdateService", []*pb.Arg{pb.String("chainA:s1"), pb.String("svc-name-" + fresh), pb.String("intro"), pb.String(""), pb.String("d"), pb.String("r")}},
+		{ca, constant.RuleManagerContractAddr, "RegisterRule", []*pb.Arg{pb.String("chainA"), pb.String(happy), pb.String("http://r")}},
+		{ca, constant.RuleManagerContractAddr, "UpdateMasterRule", []*pb.Arg{pb.String("chainA"), pb.String(happy), pb.String("r")}},
+		{ca, constant.RuleManagerContractAddr, "LogoutRule", []*pb.Arg{pb.String("chainA"), pb.String(happy)}},
+		{ad, constant.RoleContractAddr, "RegisterRole", []*pb.Arg{pb.String(freshKey.Addr.String()), pb.String("governanceAdmin"), pb.String(""), pb.String("r")}},
+		{ad, constant.RoleContractAddr, "FreezeRole", []*pb.Arg{pb.String(w.N.Admins[1].Addr.String()), pb.String("r")}},
+		{ad, constant.NodeManagerContractAddr, "RegisterNode", []*pb.Arg{pb.String(freshKey.Addr.String()), pb.String("nvpNode"), pb.String(""), pb.Uint64(0), pb.String("node-" + fresh), pb.String("chainA"), pb.String("r")}},
+		{ad, constant.NodeManagerContractAddr, "RegisterNode", []*pb.Arg{pb.String(freshKey.Addr.String()), pb.String("vpNode"), pb.String("QmPid" + fresh), pb.Uint64(5), pb.String("vp-" + fresh), pb.String(""), pb.String("r")}},
+		{out, constant.DappMgrContractAddr, "RegisterDapp", []*pb.Arg{pb.String("dapp-" + fresh), pb.String("tool"), pb.String("desc"), pb.String("http://d"), pb.String(""), pb.String(""), pb.String("r")}},
+		{ad, constant.ProposalStrategyMgrContractAddr, "UpdateProposalStrategy", []*pb.Arg{pb.String("appchain_mgr"), pb.String("SimpleMajority"), pb.String("a > 0.5 * t"), pb.String("r")}},
+		{ad, constant.GovernanceContractAddr, "Vote", []*pb.Arg{pb.String(ad.Addr.String() + "-0"), pb.String("approve"), pb.String("r")}},
+		{ad, constant.AppchainMgrContractAddr, "FreezeAppchain", []*pb.Arg{pb.String("chainB"), pb.String("r")}},
+		{out, constant.StoreContractAddr, "Set", []*pb.Arg{pb.String("k"), pb.String("v")}},
+		{out, constant.InterchainContractAddr, "GetInterchain", []*pb.Arg{pb.String(sim.FullID(w.BxhID, "chainA", "s1"))}},
+		{out, constant.TransactionMgrContractAddr, "GetStatus", []*pb.Arg{pb.String(sim.IBTPID(sim.FullID(w.BxhID, "chainA", "s1"), sim.FullID(w.BxhID, "chainB", "s1"), 1))}},
+	}
+	c := calls[rapid.IntRange(0, len(calls)-1).Draw(t, "mcall")]
+	nm := 1
+	if rapid.IntRange(0, 4).Draw(t, "two") == 0 {
+		nm = 2
+	}
+	desc := fmt.Sprintf("mutated %s(", c.method)
+	for k := 0; k < nm && len(c.args) > 0; k++ {
+		i := rapid.IntRange(0, len(c.args)-1).Draw(t, "margi")
+		if rapid.IntRange(0, 9).Draw(t, "retype") == 0 {
+			// same bytes, other declared type
+			c.args[i] = &pb.Arg{Type: rapid.SampledFrom([]pb.Arg_Type{pb.Arg_I32, pb.Arg_U64, pb.Arg_Bool, pb.Arg_Bytes, pb.Arg_F64}).Draw(t, "newType"), Value: c.args[i].Value}
+			desc += fmt.Sprintf("arg%d retyped ", i)
+		} else {
+			c.args[i] = hostileArg(t, c.args[i])
+			desc += fmt.Sprintf("arg%d=%.24q ", i, c.args[i].Value)
+		}
+	}
+	return w.BVM(c.from, c.to, c.method, c.args...), desc + ") by " + short8(c.from)
 }
